@@ -213,6 +213,15 @@ ExactScope(r) == NoErr(r) /\ ~CoordMismatch(r) /\ FixOff(r) /\ UsedKnown(r)
 EstimatorScope(r) == ExactScope(r) /\ Len(r.out) <= 64
 LocLogged(r, o, col) == \E e \in RIdx(r.gloc) : r.gloc[e].a = col /\ r.gloc[e].r = o.l
 VarLogged(r, o, col) == \E e \in RIdx(r.gvar) : r.gvar[e].a = col /\ r.gvar[e].i = o.l /\ r.gvar[e].r = o.sp
+(* the property does not order the samples within a column: the P-layer compares columns as multisets (sorted), the  *)
+(* A-layer has the code's order (pseudo-sample first, then file-name order)                                        *)
+LocLoggedAnyOrder(r) ==
+    LET g == [e \in RIdx(r.gloc) |-> ISort(r.gloc[e].a)] IN
+    ForEveryColumn(r, LAMBDA o, col : LET sc == ISort(col) IN \E e \in RIdx(g) : g[e] = sc /\ r.gloc[e].r = o.l)
+VarLoggedAnyOrder(r) ==
+    LET g == [e \in RIdx(r.gvar) |-> ISort(r.gvar[e].a)] IN
+    ForEveryColumn(r, LAMBDA o, col : LET sc == ISort(col) IN
+                                      \E e \in RIdx(g) : g[e] = sc /\ r.gvar[e].i = o.l /\ r.gvar[e].r = o.sp)
 
 (* clean levels: every sample sits at its own depth level on the autosomes (and on "other" contigs anything),     *)
 (* 0 / -1 below it on X for a female / male, -1 on Y for a male, anything on Y for a female; noise <= A           *)
@@ -361,8 +370,8 @@ Claim(c, r) ==
          (* neutral pseudo-sample -- of each sample's log2 after median-centring and shifting its sex chromosomes to    *)
          (* the requested reference sex": (i) orchestration, exact: the reported values are what the package's own      *)
          (* estimators returned for exactly that column (and, for the spread, about exactly that log2)                  *)
-      [] c = "pool_log2_orchestration" -> ForEveryColumn(r, LAMBDA o, col : LocLogged(r, o, col))
-      [] c = "pool_spread_orchestration" -> ForEveryColumn(r, LAMBDA o, col : VarLogged(r, o, col))
+      [] c = "pool_log2_orchestration" -> LocLoggedAnyOrder(r)
+      [] c = "pool_spread_orchestration" -> VarLoggedAnyOrder(r)
          (* (ii) estimator: the same values are the published biweight location / midvariance of that column, 10^-6 *)
       [] c = "pool_log2_estimator" -> ForEveryColumn(r, LAMBDA o, col : LocationOK(o.lfx, FxOfQ(col, 4 * r.U)))
       [] c = "pool_spread_estimator" -> ForEveryColumn(r, LAMBDA o, col :
@@ -373,10 +382,11 @@ Claim(c, r) ==
          (* and on it for a female one, with chrY at the single-copy level -1.0 in both"                              *)
       [] c = "pool_sex_levels" -> SexLevelsOK(r)
          (* gc / rmask columns computed from the FASTA are those of each bin's sequence *)
+         (* (a bin without a value -- the pooled reference computes rmask only for antitarget bins -- claims nothing) *)
       [] c = "pool_gc" -> \A p \in RIdx(r.out) :
                               LET o == r.out[p]  seq == BinSeq(r.fa, o.c, o.s, o.e) IN
-                              /\ r.hasgc => GcOK(o.gc, seq)
-                              /\ r.hasrm => RmaskOK(o.rm, seq)
+                              /\ (r.hasgc /\ o.gc.fin) => GcOK(o.gc, seq)
+                              /\ (r.hasrm /\ o.rm.fin) => RmaskOK(o.rm, seq)
          (* ---- flat reference *)
       [] c \in {"flat_noerr", "gc_noerr"} -> NoErr(r)
       [] c = "flat_bins" -> BinsExactly(OutRows(r), r.tbins, IF r.anti THEN r.abins ELSE <<>>, TRUE)
@@ -423,9 +433,11 @@ UsedA(r) == IF r.given # "none" THEN [j \in RIdx(r.samples) |-> GivenCode(r)]
             ELSE [j \in RIdx(r.samples) |->          \* targets first, a definite antitarget call is preferred
                      IF Len(r.infa) = NSamples(r) /\ r.infa[j] # "?" THEN r.infa[j]
                      ELSE IF Len(r.inft) = NSamples(r) THEN r.inft[j] ELSE "?"]
-(* load_sample_block: the first file (by name) of a kind decides -- empty: the whole kind is skipped, whatever the   *)
-(* other files hold; otherwise every other file must have identical (chromosome, start, end, gene) rows              *)
-BlockErrA(fs) == fs[1] # <<>> /\ \E j \in RIdx(fs) : fs[j] # fs[1]
+(* load_sample_block: the first file (by name) of a kind is the template; every other file must have identical      *)
+(* (chromosome, start, end, gene) rows -- also when the template is empty (repaired: c05-fix-1; before, an empty first  *)
+(* file made the code skip the whole kind without looking at the others: BlockErrOld, kept to show the defect)          *)
+BlockErrA(fs) == \E j \in RIdx(fs) : fs[j] # fs[1]
+BlockErrOld(fs) == fs[1] # <<>> /\ \E j \in RIdx(fs) : fs[j] # fs[1]
 ErrA(r) == \E b \in RIdx(Blocks(r)) : BlockErrA(BlockFiles(r, Blocks(r)[b]))
 OutRowsA(r) == RfSortRows(CohortBins(r, "t") \o CohortBins(r, "a"))
 (* the whole pooled result as the code computes it: rows, and per row the column and its two estimates *)
@@ -454,6 +466,12 @@ Drift(r) ==
            \/ NoErr(r) /\ ~BinsExactly(OutRows(r), CohortBins(r, "t"), CohortBins(r, "a"), TRUE)
            \/ r.used # <<>> /\ r.used # UsedA(r)
            \/ NoErr(r) /\ FixOff(r) /\ r.hasgraph /\ ~ColumnsLoggedA(r)
+           \* with a FASTA: gc for every bin when the gc correction is on, rmask for the antitarget bins when that one is
+           \/ NoErr(r) /\ r.fa # <<>> /\ ~CoordMismatch(r) /\
+                \E p \in RIdx(r.out) :
+                    LET o == r.out[p]  og == Origin(o, CohortBins(r, "t"), CohortBins(r, "a")) IN
+                    \/ (r.hasgc /\ o.gc.fin) # r.fix[1]
+                    \/ (r.hasrm /\ o.rm.fin) # (r.fix[3] /\ og[1] = "a")
       [] r.op = "flat" ->
            \/ NoErr(r) /\ ~BinsExactly(OutRows(r), r.tbins, IF r.anti THEN r.abins ELSE <<>>, TRUE)
            \/ NoErr(r) /\ \E p \in RIdx(r.out) : r.out[p].l4 # 4 * FlatLevelA(r.pfx, OutRow(r.out[p]), r.hapx)
